@@ -3,8 +3,8 @@
    Model/Directives.v (insertWordBreaks, changeNewlineToBr, truncate,
    url.QueryEscape), Model/JsEscape.v (template.JSEscapeString, json.Marshal of
    a string); decoders: Spec/Codec.v, Spec/Html.v. *)
-From Soy Require Import Model.Bytes Generated.Tables Model.Utf8 Model.Outcome Model.Escape Model.Directives Model.JsEscape
-  Spec.Html Spec.Codec Proofs.Utf8Proofs Proofs.CodecProofs.
+From Soy Require Import Model.Bytes Generated.Tables Model.Utf8 Model.Num Model.Outcome Model.Values Model.Escape Model.Directives Model.JsEscape
+  Model.JsonEncode Spec.Html Spec.Codec Spec.Json Proofs.Utf8Proofs Proofs.CodecProofs Proofs.CodecJsPair Proofs.CodecJsonNum Proofs.CodecJson.
 Open Scope N_scope.
 
 (* ---------------- escapeUri ---------------- *)
@@ -137,6 +137,49 @@ Theorem C16_jsstr_astral_refuted :
 Proof. exact jsstr_astral_refuted. Qed.
 Print Assumptions C16_jsstr_astral_refuted.
 
+(* ---- the escaper soy calls (Model/JsEscape.v js_escape_soy): text/template's, or -- once the repair
+   notes/pending/C16-jsstr-astral-surrogate-pair.diff is applied -- internal/jsescape, which writes a
+   non-printable rune above U+FFFF as its surrogate pair.  Which one the tree under test calls is
+   regenerated from its source (Generated/Tables.v jsstr_pair_html). ---- *)
+
+(* the directive as the tree under test implements it: the guard is needed only while the library is called *)
+Theorem C16_jsstr_roundtrip_soy : forall s,
+  (jsstr_pair_html = true \/ Forall (fun r => r < 65536 \/ is_print_tbl r = true) (runes s)) -> utf8_valid s = true ->
+  js_read_literal (js_escape_soy jsstr_pair_html is_print_tbl s) = Some s.
+Proof.
+  intros s Hg Hv. apply (jsstr_roundtrip_soy_q jsstr_pair_html is_print_tbl is_print_tbl_ls is_print_tbl_ps 39 (or_introl eq_refl)); [exact Hv|].
+  destruct Hg as [Hp|Hg]; [apply Forall_forall; intros; left; exact Hp|].
+  eapply Forall_impl; [|exact Hg]. cbn. tauto.
+Qed.
+Print Assumptions C16_jsstr_roundtrip_soy.
+
+(* the FULL statement, without the BMP-or-printable guard, for the repaired escaper *)
+Theorem C16_jsstr_roundtrip_repaired : forall s, utf8_valid s = true ->
+  js_read_literal (js_escape_soy true is_print_tbl s) = Some s.
+Proof. exact jsstr_roundtrip_repaired. Qed.
+Print Assumptions C16_jsstr_roundtrip_repaired.
+
+Theorem C16_jsstr_roundtrip_repaired_double_quotes : forall s, utf8_valid s = true ->
+  js_read_literal_q 34 (js_escape_soy true is_print_tbl s) = Some s.
+Proof. exact jsstr_roundtrip_repaired_dq. Qed.
+Print Assumptions C16_jsstr_roundtrip_repaired_double_quotes.
+
+Theorem C16_jsstr_soy_inert : forall pair is_print s, Forall js_inert (js_escape_soy pair is_print s).
+Proof. exact js_escape_soy_inert. Qed.
+Print Assumptions C16_jsstr_soy_inert.
+
+(* with pair = false it IS the library's escaper, so the theorems above about js_escape carry over *)
+Theorem C16_jsstr_soy_library : forall is_print s, js_escape_soy false is_print s = js_escape is_print s.
+Proof. exact js_escape_soy_false. Qed.
+Print Assumptions C16_jsstr_soy_library.
+
+(* the witness of the finding: U+F0000 z  ->  backslash-u DB80 backslash-u DC00 z, which reads back *)
+Example C16_jsstr_repaired_nonvacuous :
+  js_escape_soy true is_print_tbl [243; 176; 128; 128; 122] = [92; 117; 68; 66; 56; 48; 92; 117; 68; 67; 48; 48; 122]
+  /\ js_read_literal [92; 117; 68; 66; 56; 48; 92; 117; 68; 67; 48; 48; 122] = Some [243; 176; 128; 128; 122]
+  /\ utf8_valid [243; 176; 128; 128; 122] = true /\ is_print_tbl 983040 = false.
+Proof. vm_compute. repeat split; reflexivity. Qed.
+
 (* a, less-than, b, apostrophe, c, quote, backslash, LF, U+00A0, U+00E9, U+2028, U+1F600;
    the escapes xHH, backslash-slash and a surrogate pair are read *)
 Example C16_jsstr_nonvacuous :
@@ -169,6 +212,53 @@ Example C16_json_nonvacuous :
   /\ json_string [255] = [34; 92; 117; 102; 102; 102; 100; 34]
   /\ json_parse_string [34; 92; 117; 100; 56; 51; 100; 92; 117; 100; 101; 48; 48; 92; 47; 34] = Some [240; 159; 152; 128; 47]
   /\ json_parse_string [34; 97] = None /\ json_parse_string [34; 10; 34] = None /\ json_parse_string [34; 97; 34; 98] = None.
+Proof. vm_compute. repeat split; reflexivity. Qed.
+
+(* ---------------- json (every value) ---------------- *)
+(* json.Marshal of a Soy value (Model/JsonEncode.v: null / bool / int64 / float64 of the exact printing
+   domain / string / list / map with sorted keys, at any nesting depth), read by the RFC 8259 reader of
+   Spec/Json.v, is the JSON value the Soy value denotes (jv_of_value: undefined and null are null, a
+   number is the exact decimal it denotes, collections keep their elements).  json_ok: strings and keys
+   are valid UTF-8, floats are normalised, keys strictly increase (the invariants of Model/Values.v), and
+   -- only while the tree writes a nil collection as null (Tables.json_nil_null) -- no collection is nil. *)
+Theorem C16_json_roundtrip : forall v s, json_ok json_nil_null v -> json_encode json_nil_null v = Ok s ->
+  exists j, jv_of_value v = Some j /\ json_parse s = Some j.
+Proof. exact (json_roundtrip json_nil_null). Qed.
+Print Assumptions C16_json_roundtrip.
+
+(* for both kinds of tree; nn = false (repair notes/pending/C16-json-nil-list.diff) has no nil clause *)
+Theorem C16_json_roundtrip_any_tree : forall nn v s, json_ok nn v -> json_encode nn v = Ok s ->
+  exists j, jv_of_value v = Some j /\ json_parse s = Some j.
+Proof. exact json_roundtrip. Qed.
+Print Assumptions C16_json_roundtrip_any_tree.
+
+(* the encoder gives a text for every value without NaN / infinities whose floats are in the exact printing domain *)
+Theorem C16_json_encode_total : forall nn v, json_finite v -> exists s, json_encode nn v = Ok s.
+Proof. exact json_encode_total. Qed.
+Print Assumptions C16_json_encode_total.
+
+(* numbers: an int64 (indeed any integer) and a float of the exact printing domain read back exactly *)
+Theorem C16_json_number_int : forall z rest, stop_num rest -> json_number (dec_of_Z z ++ rest) = Some (num_of_Z z, rest).
+Proof. exact json_number_int. Qed.
+Print Assumptions C16_json_number_int.
+
+Theorem C16_json_number_float : forall x s rest, fl_norm x -> fl_to_string x = Some s -> stop_num rest ->
+  forall j, num_of_fl x = Some j -> json_number (s ++ rest) = Some (j, rest).
+Proof. exact json_number_float. Qed.
+Print Assumptions C16_json_number_float.
+
+(* {"a<":[-12,2.5,null,true,"x",[]],"b":{}} ; 2.5 is the number 25e-1 ; 1, 1.0 and 10e-1 are one number;
+   a nil list is null on a tree without the repair; malformed texts are rejected *)
+Example C16_json_value_nonvacuous :
+  let v := VMap 5 [([97; 60], VList 6 [VInt (-12); VFloat (FFin 5 (-1)); VNull; VBool true; VStr [120]; VList 1 []]); ([98], VMap 7 [])] in
+  json_ok true v
+  /\ json_encode true v = Ok (b "{""a\u003c"":[-12,2.5,null,true,""x"",[]],""b"":{}}")
+  /\ json_parse (b "{""a\u003c"":[-12,2.5,null,true,""x"",[]],""b"":{}}")
+      = Some (JObj [([97; 60], JArr [JNum true 12 0; JNum false 25 (-1); JNull; JBool true; JStr [120]; JArr []]); ([98], JObj [])])
+  /\ jv_of_value v = json_parse (b "{""a\u003c"":[-12,2.5,null,true,""x"",[]],""b"":{}}")
+  /\ json_parse (b "1") = json_parse (b " 10e-1 ") /\ json_parse (b "1.0") = Some (JNum false 1 0) /\ json_parse (b "-0") = Some (JNum true 0 0)
+  /\ json_encode true (VList 0 []) = Ok (b "null") /\ json_encode false (VList 0 []) = Ok (b "[]")
+  /\ json_parse (b "[1,]") = None /\ json_parse (b "01") = None /\ json_parse (b "{""a"":1} x") = None /\ json_parse (b "1.") = None.
 Proof. vm_compute. repeat split; reflexivity. Qed.
 
 (* ---------------- chains ---------------- *)
